@@ -466,4 +466,6 @@ def check(fx, rep, tier):
                   'the reply mapping of %s does not have the three arms Ok(Ok) / Ok(Err) -> Ok(Err) / Err -> Err' % g)
     check_error_discipline(fx, rep)
     check_word_boundaries(fx, rep)
+    import imports as _imp
+    _imp.layer(fx, rep, 'C12')
     return META
